@@ -279,3 +279,95 @@ Example cols_example :
   | None => (0, [], [])
   end = (2, [1; 1; 1], [1; 0; 1]).
 Proof. vm_compute. reflexivity. Qed.
+
+(** * Batch adoption *)
+Lemma inits_map_some (vals : list val) k : inits (length vals) (map Some vals ++ repeat None k).
+Proof.
+  unfold inits. rewrite firstn_app, map_length, Nat.sub_diag. cbn [firstn]. rewrite app_nil_r.
+  rewrite <- (map_length (@Some val) vals) at 1. rewrite firstn_all.
+  induction vals as [|x t IH]; cbn; [reflexivity|exact IH].
+Qed.
+
+Theorem cadopt_inv s i vals spare : CInv s ->
+  (forall c, nth_error (snd s) i = Some c -> c_zst c = false -> c_len c = 0 /\ snd (c_raw c) = 0) ->
+  exists s', cadopt s i vals spare = Some s' /\ CInv s'.
+Proof.
+  intros HI G. pose proof HI as (WF & COs & DJ & OW). unfold cadopt, with_col.
+  destruct (nth_error (snd s) i) as [c|] eqn:Hc; [|exists s; split; [reflexivity|exact HI]].
+  destruct (c_zst c) eqn:Z.
+  - eexists. split; [reflexivity|].
+    replace (mkCol true (c_elem c) (c_raw c) (length vals)) with (mkCol (c_zst c) (c_elem c) (c_raw c) (length vals)) by (rewrite Z; reflexivity).
+    apply with_col_inv; try assumption.
+    + rewrite Z. split; [unfold rebuild; discriminate|unfold allocated; cbn; discriminate].
+    + apply framed_refl.
+    + apply blocks_post_refl.
+    + rewrite Z. unfold allocated. cbn. discriminate.
+  - destruct (G c eq_refl Z) as [L0 C0].
+    assert (NA : allocated (c_zst c) (c_raw c) = false).
+    { unfold allocated. rewrite Z, C0. reflexivity. }
+    destruct (Nat.eqb (length vals + spare) 0) eqn:E0.
+    + eexists. split; [reflexivity|].
+      replace (mkCol false (c_elem c) (0, 0) 0) with (mkCol (c_zst c) (c_elem c) (0, 0) 0) by (rewrite Z; reflexivity).
+      apply with_col_inv; try assumption.
+      * rewrite Z. split; [unfold rebuild; cbn; discriminate|unfold allocated; cbn; discriminate].
+      * apply framed_refl.
+      * intros a2 Hf. right. split; [exact Hf|]. intros [X _]. rewrite NA in X. discriminate.
+      * rewrite Z. unfold allocated. cbn. discriminate.
+    + apply Nat.eqb_neq in E0. eexists. split; [reflexivity|].
+      set (h := fst s) in *. set (a := hp_next h).
+      set (nb := mkBlock (c_elem c) (length vals + spare) (map Some vals ++ repeat None spare)).
+      replace (mkCol false (c_elem c) (a, length vals + spare) (length vals))
+        with (mkCol (c_zst c) (c_elem c) (a, length vals + spare) (length vals)) by (rewrite Z; reflexivity).
+      destruct WF as [ND WFb].
+      assert (Hfresh : ~ In a (map fst (hp_blocks h))).
+      { intros X. apply in_map_iff in X as ([a' b'] & Ea & Hin). cbn in Ea. subst a'. destruct (WFb a b' Hin) as [L _]. unfold a in L. lia. }
+      apply with_col_inv; try assumption.
+      * split; cbn [hp_blocks hp_next]; [cbn; constructor; [exact Hfresh|exact ND]|].
+        intros x y [Hin|Hin].
+        -- inversion Hin; subst x y. split; [unfold a; lia|]. cbn [nb bk_cells bk_cap]. rewrite app_length, map_length, repeat_length. reflexivity.
+        -- destruct (WFb x y Hin). split; [unfold a in *; lia|assumption].
+      * rewrite Z. split; [|intros _; cbn [fst hp_next]; unfold a; lia].
+        assert (F : hfind a (hp_blocks (mkHeap ((a, nb) :: hp_blocks h) (S a))) = Some nb) by (cbn [hp_blocks hfind]; rewrite Nat.eqb_refl; reflexivity).
+        rewrite (rebuild_intro _ (c_elem c) a (length vals + spare) (length vals) nb F eq_refl eq_refl E0 ltac:(lia)); [discriminate|].
+        cbn [nb bk_cells]. apply inits_map_some.
+      * split; cbn [hp_blocks hp_next]; [|unfold a, h; lia]. intros a2 Hl _. cbn [hfind].
+        assert (E : Nat.eqb a a2 = false) by (apply Nat.eqb_neq; unfold a, h in *; lia). rewrite E. reflexivity.
+      * intros a2 Hf. cbn [hp_blocks hfind] in Hf. destruct (Nat.eqb a a2) eqn:E.
+        -- left. apply Nat.eqb_eq in E. split; [rewrite Z; unfold allocated; cbn [negb andb snd]; apply negb_true_iff, Nat.eqb_neq; exact E0|cbn; auto].
+        -- right. split; [exact Hf|]. intros [X _]. rewrite NA in X. discriminate.
+      * intros _. right. cbn [fst]. unfold a, h. lia.
+Qed.
+
+Theorem cextend_inv s i vals spare want : CInv s -> exists s', cextend true s i vals spare want = Some s' /\ CInv s'.
+Proof.
+  intros HI. unfold cextend. destruct (nth_error (snd s) i) as [c|] eqn:Hc; [|exists s; auto].
+  destruct (Nat.eqb (c_len c) 0 && (negb true || Nat.eqb (snd (c_raw c)) 0) && negb (c_zst c)) eqn:E.
+  - apply andb_true_iff in E as [E Ez]. apply andb_true_iff in E as [El Ec]. cbn [negb orb] in Ec.
+    apply Nat.eqb_eq in El, Ec. apply cadopt_inv; [exact HI|].
+    intros c' Hc' _. rewrite Hc in Hc'. inversion Hc'; subst c'. auto.
+  - apply crun_inv. exact HI.
+Qed.
+
+(** without the capacity test: an emptied column that kept its allocation loses it *)
+Definition adopt_leak_history : list cop := [CNew false 0; CPush 0 1%N 4; CSetLen 0 0].
+Lemma adopt_without_guard_leaks :
+  match crun true true true cinit adopt_leak_history with
+  | Some s => match cextend false s 0 [7%N] 0 0 with
+              | Some s' => match free_all s' with Some s'' => length (hp_blocks (fst s'')) | None => 99 end
+              | None => 99 end
+  | None => 99
+  end = 1.
+Proof. vm_compute. reflexivity. Qed.
+Lemma adopt_with_guard_returns_everything :
+  match crun true true true cinit adopt_leak_history with
+  | Some s => match cextend true s 0 [7%N] 0 0 with
+              | Some s' => match free_all s' with Some s'' => length (hp_blocks (fst s'')) | None => 99 end
+              | None => 99 end
+  | None => 99
+  end = 0.
+Proof. vm_compute. reflexivity. Qed.
+
+Theorem cextend_src_inv s i vals spare want : CInv s -> exists s', cextend_src s i vals spare want = Some s' /\ CInv s'.
+Proof.
+  unfold cextend_src. assert (E : fact_adopt_requires_no_allocation = true) by reflexivity. rewrite E. apply cextend_inv.
+Qed.
